@@ -276,3 +276,6 @@ def rules(ctx):
     dagger(ctx)
     dispatch(ctx)
     nonempty(ctx)
+    from . import common_backend as _B
+    _B.polar_pair(ctx, "C11.polar", ("compilers/gaussian_unitary.py", "compilers/gaussian_merge.py"))
+    ctx.floor("C11.polar", 1)
